@@ -65,6 +65,42 @@ def outcome(f, x, y):
     return "T" if r is True else "F" if r is False else "other"
 
 
+def enc_plain(x):
+    """JSON form of a plain Python value"""
+    if isinstance(x, bool):
+        return {"t": "bool", "v": x}
+    if isinstance(x, int):
+        return {"t": "int", "v": str(x)}
+    if isinstance(x, float):
+        return {"t": "float", "v": x.hex() if not (math.isnan(x) or math.isinf(x)) else repr(x)}
+    if isinstance(x, complex):
+        return {"t": "complex", "v": [enc_plain(x.real)["v"], enc_plain(x.imag)["v"]]}
+    if isinstance(x, bytes):
+        return {"t": "bytes", "v": list(x)}
+    if isinstance(x, str):
+        return {"t": "str", "v": [ord(c) for c in x]}
+    return None
+
+
+def dec_plain(d):
+    def fl(s):
+        return float(s) if s in ("nan", "inf", "-inf") else float.fromhex(s)
+    t, v = d["t"], d["v"]
+    return {"bool": lambda: bool(v), "int": lambda: int(v), "float": lambda: fl(v),
+            "complex": lambda: complex(fl(v[0]), fl(v[1])), "bytes": lambda: bytes(v),
+            "str": lambda: "".join(map(chr, v))}[t]()
+
+
+def rebuild(ffi, spec):
+    """the object described by an Obj.spec, built again (pointer-like cdata as a cast of its address)"""
+    if spec["kind"] == "py":
+        return dec_plain(spec["plain"])
+    if spec["kind"] == "ptr":
+        return ffi.cast(spec["ctype"], int(spec["addr"]))
+    v = dec_plain(spec["plain"])
+    return ffi.cast(spec["ctype"], v)
+
+
 class Obj:
     """obj: the real object; side: its description; plain: the plain Python value (None for addresses/opaque)"""
     _next = [0]
@@ -74,6 +110,7 @@ class Obj:
         self.obj, self.plain, self.what = obj, plain, what
         self.side = {"id": Obj._next[0], "cd": cd, "ptr": ptr, "v": v}
         self.has_plain = v["k"] not in ("addr", "opaque")
+        self.spec = None
 
 
 class Pools:
@@ -89,6 +126,11 @@ class Pools:
         self.sarr = ffi.new("struct s17[3]")
         self.u = ffi.new("union u17 *")
         self.keep = []
+        self.gcarr = ffi.gc(self.arr, lambda x: None)            # a gc wrapper: same address, other cdata class
+        self.backing = bytearray(32)
+        self.frombuf = ffi.from_buffer(self.backing)
+        self.frombuf2 = ffi.from_buffer("int[]", self.backing)
+        self.handle = ffi.new_handle(self)
 
     # ---- primitive cdata
     def int_value(self, bits, signed):
@@ -202,6 +244,10 @@ class Pools:
             lambda: (self.sarr[i % 3], "sarr[%d]" % (i % 3)), lambda: (self.sarr + (i % 3), "sarr+%d" % (i % 3)),
             lambda: (self.u[0], "u[0]"), lambda: (ffi.addressof(self.u, "d"), "&u.d"),
             lambda: (ffi.NULL, "NULL"), lambda: (ffi.cast("int *", 0), "(int*)0"),
+            lambda: (self.gcarr, "gc(arr)"), lambda: (self.gcarr + i, "gc(arr)+%d" % i),
+            lambda: (self.frombuf, "from_buffer"), lambda: (self.frombuf2, "from_buffer(int[])"),
+            lambda: (self.frombuf + 4 * i, "from_buffer+%d" % (4 * i)), lambda: (self.frombuf2 + i, "from_buffer(int[])+%d" % i),
+            lambda: (self.handle, "handle"), lambda: (ffi.cast("char *", self.handle), "(char*)handle"),
             lambda: (ffi.cast("int(*)(int)", near if near else 4096 + i), "fnptr"),
             lambda: (ffi.cast("void *", near if near else rng.choice([1, 1 << 63, (1 << 64) - 1, (1 << 63) - 1,
                                                                           rng.getrandbits(64), rng.getrandbits(30)])), "(void*)n"),
@@ -249,4 +295,17 @@ class Pools:
         except Exception as e:
             rec["inset"] = type(e).__name__
         rec["what"] = [a.what, b.what]
+        rec["spec"] = [self.spec_of(a), self.spec_of(b)]
         return rec
+
+    def spec_of(self, o):
+        ffi = self.ffi
+        if not o.side["cd"]:
+            return {"kind": "py", "plain": enc_plain(o.plain)}
+        ct = ffi.typeof(o.obj)
+        if o.side["ptr"]:
+            addr = sum(l << s for l, s in zip(o.side["v"]["a"], (48, 32, 16, 0)))
+            return {"kind": "ptr", "ctype": ct.cname if ct.kind in ("pointer", "function") else "void *", "addr": str(addr)}
+        if o.side["v"]["k"] == "opaque":
+            return {"kind": "prim", "ctype": ct.cname, "plain": enc_plain(float(o.obj))}
+        return {"kind": "prim", "ctype": ct.cname, "plain": enc_plain(o.plain)}
